@@ -16,21 +16,28 @@
 /* VERIF-UNIT
 {
  "name": "mmp_read",
- "props": ["C14"],
+ "props": [
+  "C14"
+ ],
  "level": "P",
- "tier": "wip",
+ "tier": "quick",
  "harness": "h_mmp_read",
  "backend": "cadical",
  "unwind": 1,
  "unwind_reason": "loop-free (memcpy of the constant 1024 bytes is the CBMC library model, no loop)",
- "cbmc_flags": ["--object-bits", "10"],
- "functions": ["lib/ext2fs/mmp.c:ext2fs_mmp_read"],
+ "cbmc_flags": [
+  "--object-bits",
+  "10"
+ ],
+ "functions": [
+  "lib/ext2fs/mmp.c:ext2fs_mmp_read"
+ ],
  "assumes": [
-   "little-endian host; CONFIG_MMP defined",
-   "fs->blocksize = 1024 (the byte offset mmp_blk * blocksize is a product: block size fixed, mmp_blk arbitrary)",
-   "libc / other-file callees are stubs with arbitrary results: stat, open, ext2fs_llseek, read (monitor READ event; returns 1024 or an arbitrary other count; the arbitrary content of fs->mmp_cmp is the block read), ext2fs_get_dio_alignment, ext2fs_get_memalign (malloc, may fail), ext2fs_blocks_count",
-   "ext2fs_mmp_csum_verify (csum.c) is a monitor stub answering IN.c.cv_ok",
-   "fs->mmp_cmp absent or a 1024-byte buffer; caller buffer absent, equal to fs->mmp_cmp, or a separate 1024-byte buffer"
+  "little-endian host; CONFIG_MMP defined",
+  "fs->blocksize = 1024 (the byte offset mmp_blk * blocksize is a product: block size fixed, mmp_blk arbitrary)",
+  "libc / other-file callees are stubs with arbitrary results: stat, open, ext2fs_llseek, read (monitor READ event; returns 1024 or an arbitrary other count; the arbitrary content of fs->mmp_cmp is the block read), ext2fs_get_dio_alignment, ext2fs_get_memalign (malloc, may fail), ext2fs_blocks_count",
+  "ext2fs_mmp_csum_verify (csum.c) is a monitor stub answering IN.c.cv_ok",
+  "fs->mmp_cmp absent or a 1024-byte buffer; caller buffer absent, equal to fs->mmp_cmp, or a separate 1024-byte buffer"
  ],
  "native": false
 }
@@ -38,19 +45,28 @@
 /* VERIF-UNIT
 {
  "name": "mmp_write",
- "props": ["C14"],
+ "props": [
+  "C14"
+ ],
  "level": "P",
- "tier": "wip",
+ "tier": "quick",
  "harness": "h_mmp_write",
- "sources": ["lib/ext2fs/io_manager.c"],
+ "sources": [
+  "lib/ext2fs/io_manager.c"
+ ],
  "unwind": 1,
  "unwind_reason": "loop-free",
- "cbmc_flags": ["--object-bits", "10"],
- "functions": ["lib/ext2fs/mmp.c:ext2fs_mmp_write"],
+ "cbmc_flags": [
+  "--object-bits",
+  "10"
+ ],
+ "functions": [
+  "lib/ext2fs/mmp.c:ext2fs_mmp_write"
+ ],
  "assumes": [
-   "little-endian host; CONFIG_MMP defined",
-   "gettimeofday, ext2fs_blocks_count are stubs with arbitrary results; ext2fs_mmp_csum_set (csum.c) is a monitor stub that may fail",
-   "io manager methods are monitor stubs (write may fail, flush counted); caller buffer: 1024 bytes, arbitrary content; superblock arbitrary"
+  "little-endian host; CONFIG_MMP defined",
+  "gettimeofday, ext2fs_blocks_count are stubs with arbitrary results; ext2fs_mmp_csum_set (csum.c) is a monitor stub that may fail",
+  "io manager methods are monitor stubs (write may fail, flush counted); caller buffer: 1024 bytes, arbitrary content; superblock arbitrary"
  ],
  "native": false
 }
